@@ -326,6 +326,9 @@ func lowWithinLen(facts []Fact, x *ssa.Slice) bool {
 	if ConsumedHook != nil && ConsumedHook(lo, x.X) {
 		return true
 	}
+	if CursorHook != nil && CursorHook(lo, x.X) {
+		return true
+	}
 	if provesGEPath(facts, lenPathOf(x.X), nil, lo, 0) {
 		return true
 	}
@@ -508,3 +511,7 @@ func lenPathOf(s ssa.Value) string {
 	}
 	return "len(" + Path(s) + ")"
 }
+
+// CursorHook, when set, reports whether lo is a cursor into s that provably
+// stays within 0..len(s) (accumulated decoder-consumed counts).
+var CursorHook func(lo, s ssa.Value) bool
